@@ -268,7 +268,8 @@ def _objective_forms_ok(eng, cfg, cond, expr, h_none_here, depth=4):
         return any(any(t.fid == "util.sumsq" for t in eng.res.calls[id(c)].targets) for c in calls(e))
 
     def has_h(e):
-        return any(eng.res.calls[id(c)].role and "h" in eng.res.calls[id(c)].role.split("|") for c in calls(e))
+        from .c03 import _is_hcall
+        return any(_is_hcall(eng, c) for c in calls(e))      # h itself, or a wrapper whose every return is an h call
 
     def forms(e, at_ast, d):
         """set of (has_sumsq, has_h, defining cfg node or None)"""
